@@ -82,6 +82,7 @@ def optimize_prec_assignment(model: MPS,
 
                 sorted_indexes = torch.argsort(layer.w_mps_quantizer.precision)
                 sorted_precisions = [layer.w_mps_quantizer.precision[i] for i in sorted_indexes]
+                inverse_indexes = torch.argsort(sorted_indexes)
                 # the best configuration is always kept in increasing-precision order
                 best_cost_w_theta_alpha_array = [copy.deepcopy(w_theta_alpha_array)[i] for i in sorted_indexes]
 
@@ -96,7 +97,8 @@ def optimize_prec_assignment(model: MPS,
                         while w_theta_alpha_array_tmp[i] > 0:
                             w_theta_alpha_array_tmp[i] -= (1. / layer.w_mps_quantizer.theta_alpha.shape[1])
                             w_theta_alpha_array_tmp[j] += (1. / layer.w_mps_quantizer.theta_alpha.shape[1])
-                            cost_tmp = _compute_cost(model, layer, w_theta_alpha_array_tmp, cost_fn_map, lname, node)
+                            # `_compute_cost` expects the coefficients in the original order of the precisions
+                            cost_tmp = _compute_cost(model, layer, [w_theta_alpha_array_tmp[k] for k in inverse_indexes], cost_fn_map, lname, node)
                             if cost_tmp < best_cost:
                                 best_cost = cost_tmp
                                 best_cost_w_theta_alpha_array = copy.deepcopy(w_theta_alpha_array_tmp) # TODO: check sorting!!!
@@ -121,7 +123,8 @@ def optimize_prec_assignment(model: MPS,
                         while w_theta_alpha_array_tmp[i] > 0:
                             w_theta_alpha_array_tmp[i] -= (1. / layer.w_mps_quantizer.theta_alpha.shape[1])
                             w_theta_alpha_array_tmp[j] += (1. / layer.w_mps_quantizer.theta_alpha.shape[1])
-                            cost_tmp = _compute_cost(model, layer, w_theta_alpha_array_tmp, cost_fn_map, lname, node)
+                            # `_compute_cost` expects the coefficients in the original order of the precisions
+                            cost_tmp = _compute_cost(model, layer, [w_theta_alpha_array_tmp[k] for k in inverse_indexes], cost_fn_map, lname, node)
                             if cost_tmp < best_cost:
                                 best_cost = cost_tmp
                                 best_cost_w_theta_alpha_array = copy.deepcopy(w_theta_alpha_array_tmp)
@@ -137,7 +140,6 @@ def optimize_prec_assignment(model: MPS,
                 best_model_cost += best_cost
 
                 # Sort the best configuration according to the original order of the precisions
-                inverse_indexes = torch.argsort(sorted_indexes)
                 best_theta_alpha_array = torch.tensor([best_cost_w_theta_alpha_array[i] for i in inverse_indexes])
                 best_theta_alpha_array = torch.mul(best_theta_alpha_array, layer.w_mps_quantizer.theta_alpha.shape[1])
 
